@@ -644,6 +644,10 @@ func (viso *VirtualISO) Read(p []byte) (int, error) {
 func (viso *VirtualISO) ReadAt(p []byte, off int64) (int, error) {
 	// TODO: make ReadAt able to work from multiple goroutines without data races
 	nw, err := viso.read(p, off)
+	if err == nil && int(nw) < len(p) {
+		err = io.EOF // io.ReaderAt requires error for incomplete read
+	}
+
 	return int(nw), err
 }
 
